@@ -68,12 +68,13 @@ Definition obs (i : N) (os : list outs) : list reply * list ev := (replies_on i 
 Definition own (i : N) (tr : list (N * input)) : list (N * input) :=
   filter (fun p => fst p =? i) tr.
 
-(* a service whose Handle keeps everything in locals: lifted from a per-connection step *)
+(* a service whose Handle keeps everything in locals: lifted from a per-connection step.
+   The step may depend on the connection's identity (its own addresses), nothing else. *)
 Section Local.
   Variable C : Type.
-  Variable lstep : C -> input -> C * list reply * list ev.
+  Variable lstep : N -> C -> input -> C * list reply * list ev.
   Definition lift (st : sys unit C) (i : N) (x : input) : sys unit C * outs :=
-    let '(c, rs, es) := lstep (conns st i) x in
+    let '(c, rs, es) := lstep i (conns st i) x in
     (mkSys (shared st) (upd (conns st) i c), (map (pair i) rs, map (pair i) es)).
 End Local.
 Arguments lift {C}.
@@ -168,14 +169,26 @@ Definition telnet_lstep (c : N * N * N) (x : input) : (N * N * N) * list reply *
 Definition ip_of (i : N) : N := i / 16.
 Definition BURST := 4.
 
+(* services.Limiter: one token bucket per key (the client IP as printed by net.IP.String), burst 4,
+   refill one token per 10 minutes (a scenario is far shorter: no refill).  State: key -> admitted *)
+Definition limiter := list (N * N).
+Definition lim_used (l : limiter) (k : N) : N := match lookup k l with Some n => n | None => 0 end.
+Definition lim_allow (l : limiter) (k : N) : bool * limiter :=
+  if BURST <=? lim_used l k then (false, l) else (true, store k (lim_used l k + 1) l).
+(* the answers to a sequence of Allow calls *)
+Fixpoint lim_run (l : limiter) (ks : list N) : list bool :=
+  match ks with
+  | [] => []
+  | k :: r => let '(b, l') := lim_allow l k in b :: lim_run l' r
+  end.
+
 Record tftp_shared := mkTftp {
-  t_used : list (N * N);             (* ip -> datagrams admitted by the limiter *)
+  t_used : limiter;                  (* ip -> datagrams admitted by the limiter *)
   t_bufs : list (N * (N * N))        (* client address -> (file, bytes received) *)
 }.
 Definition tftp_s0 := mkTftp [] [].
 
-Definition used_of (s : tftp_shared) (ip : N) : N :=
-  match lookup ip (t_used s) with Some n => n | None => 0 end.
+Definition used_of (s : tftp_shared) (ip : N) : N := lim_used (t_used s) ip.
 
 (* tokens: 1 RRQ file a, 2 WRQ file a, 3 DATA block a with 512 bytes, 4 DATA block a with
    100 bytes (final), 5 ACK, 6 unknown opcode.
@@ -203,6 +216,20 @@ Definition tftp_step (st : sys tftp_shared unit) (i : N) (x : input) : sys tftp_
                  ([(i, 4000 + a)], [(i, mkEv 3 (f * 100000 + (n + 100)))]))
           end
         else (mkSys s1 (conns st), no_outs)
+  | _ => (st, no_outs)
+  end.
+
+(* ===================================================================================== *)
+(* memcached over UDP (services/memcached.go): one datagram = one Handle; the command is    *)
+(* always recorded, it is answered only while the client's IP is within the limiter         *)
+(* ===================================================================================== *)
+(* tokens: 1 flush_all, 2 stats, 3 "get k"; replies as over TCP; event (1, token) *)
+Definition mcudp_step (st : sys limiter unit) (i : N) (x : input) : sys limiter unit * outs :=
+  match x with
+  | Tok t _ _ =>
+      let '(ok, l') := lim_allow (shared st) (ip_of i) in
+      let r := if t =? 1 then 1 else if t =? 2 then 2 else 3 in
+      (mkSys l' (conns st), (if ok then [(i, r)] else [], [(i, mkEv 1 t)]))
   | _ => (st, no_outs)
   end.
 
@@ -244,15 +271,21 @@ Definition change_dir (cwd : path) (a : N) : option path :=
   match dir_index target with Some _ => Some target | None => None end.
 Definition dir_code (p : path) : N := match dir_index p with Some k => k | None => 99 end.
 
+(* the destination (local) address of connection n is 192.0.2.(local_of n) *)
+Definition local_of (i : N) : N := 1 + i mod 3.
+
 (* per connection: phase, logged in, reqUser (0 none, 1 anonymous, 2 other) *)
 Record ftp_conn := mkFC { fc_ph : N; fc_user : bool; fc_req : N }.
 Definition ftp_c0 := mkFC PH_NONE false 0.
 
 (* tokens: 1 USER a (1 anonymous, 2 bob), 2 PASS a (1 anonymous, 2 wrong), 3 PWD, 4 CWD a,
-   5 CDUP, 6 NOOP, 7 SYST, 8 QUIT, 9 unknown verb, 10 CWD without parameter
-   replies: 1000*code + detail (PWD / CWD success: index of the directory named in the reply)
+   5 CDUP, 6 NOOP, 7 SYST, 8 QUIT, 9 unknown verb, 10 CWD without parameter, 11 PASV, 12 EPSV
+   (passive socket opened, never used)
+   replies: 1000*code + detail (PWD / CWD success: index of the directory named in the reply;
+   227: last octet of the address the client is told to connect to = passiveListenIP, the
+   destination address of THIS control connection as no public IP is configured)
    events: (1, 16*t + a) one per command line, sent by the connection's own pump          *)
-Definition ftp_cmd (cwd : path) (c : ftp_conn) (t a : N) : path * ftp_conn * list reply :=
+Definition ftp_cmd (i : N) (cwd : path) (c : ftp_conn) (t a : N) : path * ftp_conn * list reply :=
   let deny := (cwd, c, [530000]) in
   if t =? 1 then (cwd, mkFC (fc_ph c) (fc_user c) a, [331000])
   else if t =? 2 then
@@ -269,16 +302,18 @@ Definition ftp_cmd (cwd : path) (c : ftp_conn) (t a : N) : path * ftp_conn * lis
   else if t =? 7 then if fc_user c then (cwd, c, [215000]) else deny
   else if t =? 8 then (cwd, mkFC PH_DONE (fc_user c) (fc_req c), [221000; CLOSED])
   else if t =? 10 then (cwd, c, [553000])
+  else if t =? 11 then if fc_user c then (cwd, c, [227000 + local_of i]) else deny
+  else if t =? 12 then if fc_user c then (cwd, c, [425000]) else deny   (* no ':' in an IPv4 passiveListenIP *)
   else (cwd, c, [500000]).
 
-Definition ftp_lstep (c : ftp_conn * path) (x : input) : (ftp_conn * path) * list reply * list ev :=
+Definition ftp_lstep (i : N) (c : ftp_conn * path) (x : input) : (ftp_conn * path) * list reply * list ev :=
   let '(fc, cwd) := c in
   match x with
   | Open => if fc_ph fc =? PH_NONE then ((mkFC PH_LIVE false 0, []), [220000], []) else (c, [], [])
   | Close => if fc_ph fc =? PH_LIVE then ((mkFC PH_DONE (fc_user fc) (fc_req fc), cwd), [], []) else (c, [], [])
   | Tok t a _ =>
       if negb (fc_ph fc =? PH_LIVE) then (c, [], [])
-      else let '(cwd', fc', rs) := ftp_cmd cwd fc t a in
+      else let '(cwd', fc', rs) := ftp_cmd i cwd fc t a in
            ((fc', cwd'), rs, [mkEv 1 (16 * t + a)])
   end.
 
@@ -290,7 +325,7 @@ Definition ftp_lstep (c : ftp_conn * path) (x : input) : (ftp_conn * path) * lis
 (* conn state: 0 none, 1 helloState, 2 loopState, 3 mailFromState, 4 reading DATA, 5 done
    tokens: 1 HELO, 2 MAIL FROM, 3 RCPT TO, 4 DATA, 5 message a + "." (only generated in
    state 4), 6 NOOP, 7 RSET, 8 QUIT, 9 unknown verb
-   replies: 1000*code; events: (1, token) input line, (2, a) email - both by the own pump  *)
+   replies: 1000*code; events: (1, token) input line, (2, ..) email - both by the own pump *)
 Definition smtp_line (stt t : N) : N * list reply :=
   if stt =? 1 then
     if t =? 1 then (2, [250000]) else (5, [500000; CLOSED])
@@ -305,16 +340,42 @@ Definition smtp_line (stt t : N) : N * list reply :=
     else if t =? 4 then (4, [354000])
     else (2, [500000]).
 
-Definition smtp_lstep (stt : N) (x : input) : N * list reply * list ev :=
+(* per connection: dialogue state and what the BDAT chunk buffer (Message.Buffer) of the mail
+   in progress holds: None = empty, Some (subject, body bytes) = header block of mail [subject]
+   and that many body bytes.  The buffer is replaced by a fresh one after every completed mail
+   and on RSET; MAIL FROM, a failed command or leaving the mail state do not touch it.
+   BDAT tokens (chunk sizes fixed: header chunk 22 bytes incl. 4 body bytes, body chunk 4):
+   10 "BDAT 22"+header chunk of mail a, 11 "BDAT 4"+body chunk (only generated with a buffered
+   header), 12 "BDAT 22 LAST"+header chunk of mail a, 13 "BDAT 4 LAST"+body chunk (only
+   generated with a buffered header).  email event: (2, 1000*subject + body bytes)           *)
+Definition HDR_CHUNK := 22.
+Definition smtp_conn := (N * option (N * N))%type.
+
+Definition smtp_lstep (c : smtp_conn) (x : input) : smtp_conn * list reply * list ev :=
+  let '(stt, pend) := c in
   match x with
-  | Open => if stt =? 0 then (1, [220000], []) else (stt, [], [])
-  | Close => if (1 <=? stt) && (stt <=? 4) then (5, [], []) else (stt, [], [])
+  | Open => if stt =? 0 then ((1, None), [220000], []) else (c, [], [])
+  | Close => if (1 <=? stt) && (stt <=? 4) then ((5, pend), [], []) else (c, [], [])
   | Tok t a _ =>
-      if (stt =? 0) || (stt =? 5) then (stt, [], [])
-      else if stt =? 4 then (if t =? 5 then (2, [250000], [mkEv 2 a]) else (stt, [], []))
+      if (stt =? 0) || (stt =? 5) then (c, [], [])
+      else if stt =? 4 then (if t =? 5 then ((2, None), [250000], [mkEv 2 (1000 * a + 6)]) else (c, [], []))
                                                  (* not generated: a command line inside DATA *)
-      else if t =? 5 then (stt, [], [])          (* not generated: message text outside DATA *)
-      else let '(stt', rs) := smtp_line stt t in (stt', rs, [mkEv 1 t])
+      else if t =? 5 then (c, [], [])            (* not generated: message text outside DATA *)
+      else if negb (stt =? 3) && (10 <=? t) && (t <=? 13) then (c, [], [])
+                                                 (* not generated: BDAT outside the mail state (the chunk
+                                                    would be read as command lines) *)
+      else if (stt =? 3) && (10 <=? t) && (t <=? 13) then
+        match pend, t with
+        | None, 10 => ((3, Some (a, 4)), [250000], [mkEv 1 t])
+        | Some (s, l), 10 => ((3, Some (s, l + HDR_CHUNK)), [250000], [mkEv 1 t])
+        | Some (s, l), 11 => ((3, Some (s, l + 4)), [250000], [mkEv 1 t])
+        | None, 12 => ((2, None), [250000], [mkEv 1 t; mkEv 2 (1000 * a + 4)])
+        | Some (s, l), 12 => ((2, None), [250000], [mkEv 1 t; mkEv 2 (1000 * s + l + HDR_CHUNK)])
+        | Some (s, l), 13 => ((2, None), [250000], [mkEv 1 t; mkEv 2 (1000 * s + l + 4)])
+        | _, _ => (c, [], [])                    (* not generated: body chunk without a header *)
+        end
+      else let '(stt', rs) := smtp_line stt t in
+           ((stt', if (t =? 7) && negb (stt =? 1) then None else pend), rs, [mkEv 1 t])
   end.
 
 (* ===================================================================================== *)
@@ -356,6 +417,7 @@ Definition SVC_TELNET := 5.
 Definition SVC_REDIS := 6.
 Definition SVC_MEMCACHED := 7.
 Definition SVC_HTTP := 8.
+Definition SVC_MCUDP := 10.    (* memcached over UDP *)
 Definition SVC_SMTP2 := 9.     (* two smtp services in one process: even connection ids go to
                                   the second one; the instances share nothing *)
 
@@ -364,13 +426,14 @@ Definition run_outs {S C} (step : sys S C -> N -> input -> sys S C * outs) (s0 :
   snd (run step (mkSys s0 (fun _ => c0)) tr).
 
 Definition svc_run (svc : N) (tr : list (N * input)) : list outs :=
-  if svc =? SVC_LDAP then run_outs (lift ldap_lstep) tt (PH_NONE, false) tr
+  if svc =? SVC_LDAP then run_outs (lift (fun _ => ldap_lstep)) tt (PH_NONE, false) tr
   else if svc =? SVC_FTP then run_outs (lift ftp_lstep) tt (ftp_c0, []) tr
-  else if svc =? SVC_SMTP then run_outs (lift smtp_lstep) tt 0 tr
+  else if svc =? SVC_SMTP then run_outs (lift (fun _ => smtp_lstep)) tt (0, None) tr
   else if svc =? SVC_TFTP then run_outs tftp_step tftp_s0 tt tr
-  else if svc =? SVC_TELNET then run_outs (lift telnet_lstep) tt (PH_NONE, 0, 0) tr
-  else if svc =? SVC_REDIS then run_outs (lift redis_lstep) tt PH_NONE tr
-  else if svc =? SVC_MEMCACHED then run_outs (lift memcached_lstep) tt PH_NONE tr
-  else if svc =? SVC_HTTP then run_outs (lift http_lstep) tt PH_NONE tr
-  else if svc =? SVC_SMTP2 then run_outs (lift smtp_lstep) tt 0 tr
+  else if svc =? SVC_TELNET then run_outs (lift (fun _ => telnet_lstep)) tt (PH_NONE, 0, 0) tr
+  else if svc =? SVC_REDIS then run_outs (lift (fun _ => redis_lstep)) tt PH_NONE tr
+  else if svc =? SVC_MEMCACHED then run_outs (lift (fun _ => memcached_lstep)) tt PH_NONE tr
+  else if svc =? SVC_HTTP then run_outs (lift (fun _ => http_lstep)) tt PH_NONE tr
+  else if svc =? SVC_SMTP2 then run_outs (lift (fun _ => smtp_lstep)) tt (0, None) tr
+  else if svc =? SVC_MCUDP then run_outs mcudp_step [] tt tr
   else [].
